@@ -255,6 +255,14 @@ func (w *World) writerPaths(fn *ssa.Function) *writerInfo {
 			for i := 0; i < res.Len(); i++ {
 				if _, _, isInt := intTypeInfo(w, res.At(i).Type()); !isInt {
 					if b, ok := res.At(i).Type().Underlying().(*types.Basic); !ok || b.Info()&(types.IsBoolean|types.IsString) == 0 {
+						// a `(value, ok)` accessor (`dateValue(v) (time.Time, bool)`): the flag decides
+						// the caller's branch, and what the accessor tested (a dynamic type) is part
+						// of the path — stepped into whatever the type of the value
+						if i == 0 && res.Len() == 2 {
+							if b2, ok2 := res.At(1).Type().Underlying().(*types.Basic); ok2 && b2.Info()&types.IsBoolean != 0 {
+								return true
+							}
+						}
 						return false
 					}
 				}
